@@ -17,6 +17,7 @@ def run(rep, W, ctx):
     S.s_txn2(rep, W)
     S.s_cas(rep, W)                      # O2, O4
     S.s_txn3(rep, W, body)
+    S.s_failstop_all(rep, W)          # a failed storage step is never retried / patched up inside the transaction
     S.c01_key(rep, W)                    # O3
     S.s_appendonly(rep, W)               # O5
     S.s_newclient(rep, W)                # O6
